@@ -797,4 +797,4 @@ Definition tag_run (tid sid : string) (ts dur date : Z) (kv : list (string * str
   map (fun e => {| a_key := fst e; a_val := snd e; a_trace := tid; a_span := sid; a_ts := ts; a_dur := dur; a_date := date |}) kv.
 
 (* case files write a long run of one character as rep_char c n *)
-Fixpoint rep_char (c : ascii) (n : nat) : string := match n with O => EmptyString | S k => String c (rep_char c k) end.
+Definition rep_char (c : ascii) (n : N) : string := N.iter n (String c) EmptyString.   (* no deep recursion, no unary numeral *)
